@@ -38,6 +38,13 @@ def r1(ctx):
     for c in sys_calls:
         ctx.check("C17.R1", all(any(g.dominates(v, n, follow_exc=False) for v in val) for n in nodes_with(f, c)), key(f, "validate-first|" + norm(c.func)), site(f, c),
                   "`%s` can run before the existing pid file was validated" % norm(c.func), "validate() dominates")
+    # whichever way create() returns normally, the object knows its pid (unlink() compares the file with self.pid)
+    pst = [s for s in g.stmts(ast.Assign) if any(isinstance(t, ast.Attribute) and t.attr == "pid" and tail(t.value) == "self" for t in s.ast.targets) and
+           isinstance(s.ast.value, ast.Name) and s.ast.value.id == f.params[1]]
+    p = g.path(g.entry, [g.exit], without_nodes=pst, follow_exc=False)
+    ctx.check("C17.R1", bool(pst) and p is None, key(f, "pid-recorded-on-every-return"), site(f),
+              "Pidfile.create can return normally without having recorded self.pid (the early return taken when the file already holds this process's pid, e.g. a stale file and a re-used pid): "
+              "unlink() then compares the file with None and never removes it", "self.pid = pid on every normal return", path=p and g.fmt_path(p))
     OLD = None
     for s in g.stmts(ast.Assign):
         if s in val and isinstance(s.ast.targets[0], ast.Name):
@@ -179,6 +186,16 @@ def r4(ctx):
     cr = [nn for c in method_calls(f, "create") if tail(c.func.value) == "pidfile" for nn in nodes_with(f, c)]
     ctx.check("C17.R4", bool(u) and bool(cr) and all(any(x in g.reachable([a], follow_exc=False) for x in cr) for a in u) and not any(x in g.reachable([b], follow_exc=False) for b in cr for x in u), key(f, "reload-unlink-then-create"), site(f),
               "reload does not release the old pid file before creating the new one", "unlink then create")
+    if u and cr:
+        def nopid(e):
+            cc = compare(e)
+            if cc and isinstance(cc[0], ast.Attribute) and cc[0].attr == "pidfile" and tail(cc[0].value) == "self" and isinstance(cc[2], ast.Constant) and cc[2].value is None:
+                return -1 if cc[1] in (ast.Is, ast.Eq) else +1      # C = 'an old pid file object exists'; its false edge needs no unlink
+            return None
+        p, hits = guard_check(f, cr, nopid, without_nodes=u)
+        ctx.check("C17.R4", p is None, key(f, "reload-always-releases-old"), site(f, cr[0]),
+                  "reload can create the new pid file while the old one is still in place (unlink is conditional): create() then finds its own pid, returns early and the file is never removed at exit",
+                  "old pid file unlinked on every path to create", path=p and g.fmt_path(p))
     # crash path of run() releases the pid file
     fr = ctx.fn(repo.func(ARB + ".run"))
     hs = [h for h in walk_own(fr.node) if isinstance(h, ast.ExceptHandler) and h.type is not None and norm(h.type) == "Exception"]
